@@ -19,7 +19,7 @@ META = dict(
          'cylc-run directory and normalised, lies strictly inside it, and '
          'that with reserved-name checking no component is a reserved name '
          'or run<number>.',
-    note='name length <= 6 (thorough 8) for the character-level escape lemma, 1..5 components for the component-level one, over a '
+    note='name length <= 6 for the character-level escape lemma, 1..5 components for the component-level one, over a '
          '9-character alphabet; reserved-name lemma: two symbolic components '
          'each drawn from reserved/near-reserved words joined by symbolic '
          'separators; os.path.normpath (a C function in Python 3.12, which '
